@@ -554,17 +554,27 @@ fn build_sub(ctx: &Ctx, k: u64, ncol: u64, ws: &[W], stale: &[u64], nat: &[Vec<u
         0 | 1 => {
             let mut b = TxInputsBuilder::new();
             let txid = if k == 0 { 0x00 } else { 0x11 };
+            // stale witnesses: an outpoint added with a Plutus witness and then AGAIN — as a key input (the witness stays
+            // registered, nothing is returned for it), or, for odd j with a returned witness at position j, under another
+            // Plutus script (h1 -> h2: only the witness registered under the current hash is returned)
+            let stale_w = |l: u64| W { src: Src::Ref(l), dat: Dat::None, index: 0, d: 0, mem: 1, steps: 1 };
+            for (j, l) in stale.iter().enumerate() {
+                if j % 2 == 1 && j < ws.len() {
+                    let h = ScriptHash::from_bytes(h28(0xc5, j as u64)).unwrap();
+                    let inp = TransactionInput::new(&h32(txid), ws[j].index as u32);
+                    b.add_plutus_script_input(&mk_witness(ctx, &stale_w(*l), &h, 500 + j, k), &inp, &Value::new(&bn(2_000_000)));
+                }
+            }
             for (pos, w) in ws.iter().enumerate() {
                 let h = script_hash_of(ctx, w, &mut prev, pos, false);
                 let wit = mk_witness(ctx, w, &h, pos, k);
                 b.add_plutus_script_input(&wit, &TransactionInput::new(&h32(txid), w.index as u32), &Value::new(&bn(2_000_000)));
             }
-            // an input added with a Plutus witness and then again as a key input: the witness stays registered
             for (j, l) in stale.iter().enumerate() {
-                let w = W { src: Src::Ref(*l), dat: Dat::None, index: 0, d: 0, mem: 1, steps: 1 };
+                if j % 2 == 1 && j < ws.len() { continue; }
                 let h = ScriptHash::from_bytes(h28(0xc5, j as u64)).unwrap();
                 let inp = TransactionInput::new(&h32(txid), 5000 + j as u32);
-                b.add_plutus_script_input(&mk_witness(ctx, &w, &h, 500 + j, k), &inp, &Value::new(&bn(2_000_000)));
+                b.add_plutus_script_input(&mk_witness(ctx, &stale_w(*l), &h, 500 + j, k), &inp, &Value::new(&bn(2_000_000)));
                 b.add_regular_input(&key_addr(50 + j as u64), &inp, &Value::new(&bn(2_000_000))).map_err(e)?;
             }
             for (j, nb) in nat.iter().enumerate() {
@@ -575,7 +585,8 @@ fn build_sub(ctx: &Ctx, k: u64, ncol: u64, ws: &[W], stale: &[u64], nat: &[Vec<u
                 // the funding input sorts after every script input
                 b.add_regular_input(&key_addr(0), &TransactionInput::new(&h32(0xff), 0), &Value::new(&bn(4_000_000_000_000_000_000))).map_err(e)?;
             } else {
-                let nkeys = (ncol as usize).saturating_sub(ws.len() + stale.len() + nat.len());
+                let extra_inputs = (0..stale.len()).filter(|j| !(j % 2 == 1 && *j < ws.len())).count();
+                let nkeys = (ncol as usize).saturating_sub(ws.len() + extra_inputs + nat.len());
                 for j in 0..nkeys { b.add_regular_input(&key_addr(1 + j as u64), &TransactionInput::new(&h32(0x11), 1000 + j as u32), &Value::new(&bn(10_000_000))).map_err(e)?; }
             }
             let got = b.get_plutus_input_scripts().unwrap_or(PlutusWitnesses::new());
@@ -1047,6 +1058,26 @@ fn gen_builder(r: &mut Rng, stream: &str) -> Option<String> {
             let tail: Vec<Op> = subs.split_off(cut);
             ops.extend(subs); ops.push(Op::Calc(gen_cm(r, &[0, 1, 2]))); ops.extend(tail); ops.push(Op::Calc(cm.clone()));
         }
+        "replaced" => { // Plutus items, calc (stores a hash), every Plutus-bearing sub-builder replaced by one without returned
+                        // witnesses (stale registrations and native scripts may stay), calc again (a no-op when nothing is left), build
+            let mut after: Vec<Op> = Vec::new();
+            let keep_extra = r.chance(1, 4);
+            for o in &subs {
+                match o {
+                    Op::Sub(k, n, ws, _st, nat) if !ws.is_empty() => {
+                        let stale2: Vec<u64> = if *k == 0 && r.chance(2, 3) { vec![match &ws[0].src { Src::Inline(i) => scripts[*i].0, Src::Ref(l) => *l }] } else { vec![] };
+                        let nat2: Vec<Vec<u8>> = if *k != 6 && r.chance(1, 3) { if nat.is_empty() { vec![native_pool[0].clone()] } else { nat.clone() } } else { vec![] };
+                        if let Some((ws2, nat3)) = normalise(&ctx, *k, *n, &[], &stale2, &nat2) { after.push(Op::Sub(*k, *n, ws2, stale2, nat3)); } else { return None; }
+                    }
+                    _ => {}
+                }
+            }
+            let mut first: Vec<Op> = subs.iter().filter(|o| keep_extra || !matches!(o, Op::Extra(_))).cloned().collect();
+            if first.iter().all(|o| !matches!(o, Op::Sub(_, _, ws, _, _) if !ws.is_empty())) { return None; }
+            ops.append(&mut first); ops.push(Op::Calc(cm.clone()));
+            for i in (1..after.len()).rev() { let j = r.below(i as u64 + 1) as usize; after.swap(i, j); }
+            ops.extend(after); ops.push(Op::Calc(cm.clone()));
+        }
         "noopcalc" => { // a hash set by hand, then calc on a builder without script items: nothing changes
             ops.push(Op::SetHash(r.bytes(32))); ops.push(Op::Calc(cm.clone()));
         }
@@ -1108,7 +1139,7 @@ fn main() {
             let toks: Vec<String> = line.split_whitespace().map(|x| x.to_string()).collect();
             out.emit(&line, &run_case(&toks));
         } }
-        let bstreams = ["spend", "mix", "mix", "mix", "refonly", "extra", "dupdatum", "dupred", "colplutus", "eqvalue", "eqvalue", "eqvalue", "stalelang", "stalelang", "native", "native", "stale", "nohash", "nocollateral", "missingcm", "aux", "aux", "auxflip", "auxflip", "auxwire", "sethash", "recalc", "noopcalc"];
+        let bstreams = ["spend", "mix", "mix", "mix", "refonly", "extra", "dupdatum", "dupred", "colplutus", "eqvalue", "eqvalue", "eqvalue", "stalelang", "stalelang", "native", "native", "stale", "nohash", "nocollateral", "missingcm", "aux", "aux", "auxflip", "auxflip", "auxwire", "sethash", "recalc", "noopcalc", "replaced", "replaced", "replaced"];
         for _ in 0..(30 * scale) { for s in bstreams.iter() {
             if let Some(line) = gen_builder(&mut r, s) {
                 let toks: Vec<String> = line.split_whitespace().map(|x| x.to_string()).collect();
